@@ -198,6 +198,13 @@ func runC02(c *Ctx) {
 			o := all[t.Choose(uint32(len(all)))]
 			h := o.Header
 			hs = append(hs, &h)
+		case 5: // a sibling in the middle: ..., A, B, B'(parent A), C(parent B), ...
+			if len(seg) > 2 {
+				k := 1 + int(t.Choose(uint32(len(seg)-2)))
+				sib := ns.BuildChain(seg[k-1], 1, nil).Header
+				hs = append(hs[:k+1], append([]*wire.BlockHeader{&sib}, hs[k+1:]...)...)
+				c.Probe("sibling_inside_headers")
+			}
 		}
 		for _, h := range hs {
 			hm.AddBlockHeader(h)
@@ -304,6 +311,6 @@ func init() {
 	real := []string{"internal/spynode.Node (Run, block processor)", "internal/handlers (headers, block)", "internal/state (request queue)", "internal/storage.BlockRepository", "pkg/wire framing"}
 	Register(&Check{Prop: "C02", Sub: "byzantine-trusted", Weight: 1, Real: real, Stub: txStub,
 		Req:  []string{"announced", "invariant_checks", "announce_reorg", "byz_headers_response", "byz_block_response"},
-		Rule: "after an honest handshake the trusted peer answers header and block requests Byzantine-ly with tape-chosen probability and sends unsolicited messages: headers lists drawn from a multi-branch tree in order / shuffled / with gaps / duplicated / with unknown parents / mixing branches, empty headers, blocks requested or not, twice, swapped, never; interleaved by the scheduler with the node's own block processing. Invariants are evaluated every 5-45 simulated ms, inside every HandleHeaders callback and at the end; every run is non-trivial.",
+		Rule: "after an honest handshake the trusted peer answers header and block requests Byzantine-ly with tape-chosen probability and sends unsolicited messages: headers lists drawn from a multi-branch tree in order / shuffled / with gaps / duplicated / with unknown parents / mixing branches / with a sibling of an entry right behind it, empty headers, blocks requested or not, twice, swapped, never; interleaved by the scheduler with the node's own block processing. Invariants are evaluated every 5-45 simulated ms, inside every HandleHeaders callback and at the end; every run is non-trivial.",
 		Run:  runC02})
 }
